@@ -34,7 +34,32 @@ def ra_case(t, group):
                 tags=["moved" if moved else "unmoved"])
 
 
+def long_case(rng, L=None, reverse=False):
+    """a very long sentence (token numbers of three and four digits) with unattached material in the gap of a discontinuous
+    clause near its end, the root's children stored out of order"""
+    L = L or rng.choice([16, 120, 520, 1006, 1100])
+    front, i = [], 1
+    while i <= L - 6:
+        k = min(rng.randint(1, 8), L - 6 - i + 1)
+        front.append(mk_node("NP", [mk_leaf(i + j, "NN", "w", "--", "--", "--") for j in range(k)], edge="--", lemma="--", morph="--"))
+        i += k
+    vp = mk_node("VP", [mk_leaf(L - 3 + j, "VV", "v", "--", "--", "--") for j in range(3)], edge="--", lemma="--", morph="--")
+    s = mk_node("S", front + [vp], edge="--", lemma="--", morph="--")
+    loose = [mk_leaf(L - 5, "$,", ",", "--", "--", "--"), mk_leaf(L - 4, "$(", "\"", "--", "--", "--"), mk_leaf(L, "$.", ".", "--", "--", "--")]
+    kids = [s] + loose
+    if reverse:
+        kids.reverse()          # stored right to left: the extreme of "child lists are stored in any order"
+    else:
+        rng.shuffle(kids)
+    t = mk_node("VROOT", kids, edge="--", lemma="--", morph="--")
+    c = ra_case(t, "long")
+    c.desc = {"tokens": L, "result": c.desc.get("result")}
+    return c
+
+
 def gen(seed, tier, scale):
+    for i in range((3 if tier == "quick" else 20) * scale):
+        yield 600000 + i, long_case(case_rng(seed, ID, 600000 + i), L=[1006, 520, None][i % 3], reverse=(i % 3 == 0))
     idx = 0
     nmax = 4 if tier == "quick" else 5
     for n in range(1, nmax + 1):
